@@ -394,7 +394,7 @@ func genHostsLine(rng *rand.Rand) string {
 			line = pick(rng, junk, junk+"# c", "\t"+junk+" \t", junk+" 1.2.3.4 a", " "+junk)
 		}
 	}
-	return line
+	return dictMutate(rng, line, " \t#", 16)
 }
 
 func c07UnmarshalCase(pre, line string) string {
